@@ -198,6 +198,64 @@ def run {L : Type} (lat : Lat L) (P : Prog L) (nv : Nat) (pick : Nat → List Na
 
 end Sparse
 
+/-! ## sparse solver with multi-mapping transfers (sparse/dfa.go, what `sparse.Ms` is for) -/
+namespace SparseM
+
+/-- The instructions `0..n-1` of a function (instruction `i`, if it defines a value, defines
+value `i`; other values have numbers `≥ n`).  `Transfer` returns a *list* of mappings
+`(value, state)` — for any values, in any order, possibly none — exactly as the Go API
+allows; for a phi the framework itself builds the single mapping `phi ↦ ⨆ Edges`. -/
+structure Prog (L : Type) where
+  n : Nat
+  isPhi : Nat → Bool
+  edges : Nat → List Nat                     -- phi.Edges
+  refs : Nat → List Nat                      -- *instr.Referrers()
+  tr : Nat → (Nat → L) → List (Nat × L)      -- Instance.Transfer (never called for a phi)
+
+def init {L : Type} (P : Prog L) (val0 : Nat → L) : Sparse.St L :=
+  { val := val0, w := fun i => decide (i < P.n) }
+
+/-- `ds` of the loop body: the phi mapping or the result of `Transfer`. -/
+def mappings {L : Type} (lat : Lat L) (P : Prog L) (val : Nat → L) (i : Nat) : List (Nat × L) :=
+  if P.isPhi i then [(i, (P.edges i).foldl (fun d v => lat.merge d (val v)) lat.bot)]
+  else P.tr i val
+
+/-- body of `for _, d := range ds`: `old := ins.Value(d.Value)` is read from the mapping as
+updated by the earlier iterations; a changed state is stored and the referrers of the
+*instruction* are (re-)enqueued — modelled by the flag, which is therefore OR-ed. -/
+def storeStep {L : Type} (lat : Lat L) (acc : (Nat → L) × Bool) (d : Nat × L) : (Nat → L) × Bool :=
+  if lat.eq d.2 (acc.1 d.1) then acc else (upd acc.1 d.1 d.2, true)
+
+def store {L : Type} (lat : Lat L) (val : Nat → L) (ds : List (Nat × L)) : (Nat → L) × Bool :=
+  ds.foldl (storeStep lat) (val, false)
+
+/-- One iteration of `for len(worklist) > 0` for the removed instruction `i`. -/
+def process {L : Type} (lat : Lat L) (P : Prog L) (s : Sparse.St L) (i : Nat) : Sparse.St L :=
+  let r := store lat s.val (mappings lat P s.val i)
+  let w1 : Nat → Bool := fun x => s.w x && !(x == i)
+  { val := r.1, w := if r.2 then (fun x => w1 x || (P.refs i).contains x) else w1 }
+
+def queued {L : Type} (P : Prog L) (s : Sparse.St L) : List Nat :=
+  (List.range P.n).filter s.w
+
+def reify {L : Type} (P : Prog L) (nv : Nat) (s : Sparse.St L) : Sparse.St L :=
+  let a1 := tab nv s.val
+  let a2 := tab P.n s.w
+  { val := lookupTab a1 s.val, w := lookupTab a2 s.w }
+
+def run {L : Type} (lat : Lat L) (P : Prog L) (nv : Nat) (pick : Nat → List Nat → Nat) :
+    Nat → Nat → Sparse.St L → Sparse.St L × Nat
+  | 0, k, s => (s, k)
+  | fuel + 1, k, s =>
+    match queued P s with
+    | [] => (s, k)
+    | x :: xs =>
+      let l := x :: xs
+      let i := l.getD (pick k l % l.length) x
+      run lat P nv pick fuel (k + 1) (reify P nv (process lat P s i))
+
+end SparseM
+
 /-! ## lattices -/
 
 /-- `lattice.Merge` of nilness.go on one component: `latticeMerge[a][b]`; indices outside
@@ -270,6 +328,12 @@ def dmLat {E : Type} (el : Lat E) : Lat (List E) :=
 def orLat : Lat Nat := { bot := 0, merge := fun a b => if a = 0 then b else a, eq := fun a b => a == b }
 /-- bit, intersection (`Ident` = 1). -/
 def andLat : Lat Nat := { bot := 1, merge := fun a b => if a = 1 then b else a, eq := fun a b => a == b }
+/-- product of a "must" bit (intersection) and a "may" bit (union): code `2*must + may`,
+`Ident` = 2 (must = 1, may = 0). -/
+def aoLat : Lat Nat :=
+  { bot := 2
+    merge := fun a b => 2 * (if a / 2 = 1 ∧ b / 2 = 1 then 1 else 0) + (if a % 2 = 1 ∨ b % 2 = 1 then 1 else 0)
+    eq := fun a b => a == b }
 /-- flat constant-propagation lattice: 0 = ⊥ (`Ident`), 1 = ⊤, `c+2` = constant `c`. -/
 def flatLat : Lat Nat :=
   { bot := 0
